@@ -191,6 +191,8 @@ class C17(Property):
     ID = "C17"
     SHAPE = [
         ("antismash/detection/hmm_detection/__init__.py", "get_ruleset"),
+        ("antismash/detection/hmm_detection/__init__.py", "check_options"),
+        ("antismash/common/hmm_rule_parser/cluster_prediction.py", "Ruleset.copy_with_replacements"),
         ("antismash/common/hmmscan_refinement.py", "gather_by_query"),
         ("antismash/common/hmmscan_refinement.py", "refine_hmmscan_results"),
         ("antismash/common/hmmscan_refinement.py", "_merge_domain_list"),
@@ -385,6 +387,8 @@ class C17(Property):
             yield self.rand_outside(rng)
         for _ in range(400 * mult):
             yield self.rand_bycds(rng)
+        for _ in range(20 * mult):
+            yield self.rand_ruleopts(rng)
         if deep:
             yield from self.small_scope()
 
@@ -780,6 +784,63 @@ class C17(Property):
         case["kind"] = "sideload"
         return case
 
+    # ------------------------------------------------------------------ get_ruleset: rule subset options
+    _FULL_RULES: Dict[str, List[Tuple[str, str]]] = {}
+
+    @classmethod
+    def full_rules(cls, strictness: str) -> List[Tuple[str, str]]:
+        """(name, category) of the shipped rules of a strictness level, in rule-file order (the real get_ruleset)"""
+        if strictness not in cls._FULL_RULES:
+            from antismash.config import build_config, destroy_config
+            from antismash.detection import hmm_detection
+            options = build_config(["--hmmdetection-strictness", strictness], isolated=True, modules=[hmm_detection])
+            try:
+                cls._FULL_RULES[strictness] = [(r.name, r.category) for r in hmm_detection.get_ruleset(options).rules]
+            finally:
+                destroy_config()
+        return cls._FULL_RULES[strictness]
+
+    def rand_ruleopts(self, rng: random.Random) -> Dict[str, Any]:
+        strictness = rng.choice(["strict", "relaxed", "loose"])
+        rules = self.full_rules(strictness)
+        names = rng.sample([n for n, _ in rules], rng.choice([0, 2, 3, 5, 8])) if rng.random() < 0.8 else []
+        cats = rng.sample(sorted({c for _, c in rules}), rng.choice([1, 2])) if rng.random() < 0.4 or not names else []
+        if names and rng.random() < 0.3:
+            names.append(names[0])      # a name given twice
+        return {"kind": "ruleopts", "strictness": strictness, "names": names, "cats": cats, "pseed": rng.randrange(1 << 30)}
+
+    def impl_ruleopts(self, case: Dict[str, Any]) -> Dict[str, Any]:
+        from antismash.common.secmet.test.helpers import DummyRecord
+        from antismash.config import build_config, destroy_config
+        from antismash.detection import hmm_detection
+        prng = random.Random(case["pseed"])
+        outs = []
+        for rep in range(3):
+            names, cats = list(case["names"]), list(case["cats"])
+            if rep == 1:
+                names.reverse()
+                cats.reverse()
+            elif rep == 2:
+                prng.shuffle(names)
+                prng.shuffle(cats)
+            args = ["--hmmdetection-strictness", case["strictness"]]
+            if names:
+                args += ["--hmmdetection-limit-to-rule-names", ",".join(names)]
+            if cats:
+                args += ["--hmmdetection-limit-to-rule-categories", ",".join(cats)]
+            options = build_config(args, isolated=True, modules=[hmm_detection])
+            try:
+                problems = hmm_detection.check_options(options)
+                if problems:
+                    outs.append({"rejected": len(problems)})
+                    continue
+                ruleset = hmm_detection.get_ruleset(options)
+                results = hmm_detection.run_on_record(DummyRecord(), None, options)
+                outs.append({"rules": [r.name for r in ruleset.rules], "enabled": list(results.enabled_types)})
+            finally:
+                destroy_config()
+        return self._collect(outs)
+
     # ------------------------------------------------------------------ child matrix (also used by --replay)
     DEFAULT_SPECS = [("0", 0), ("1", 911), ("2", 3517), ("3", 77), ("4", 1203), ("5", 2600), ("6", 40), ("random", 1999)]
 
@@ -818,6 +879,14 @@ class C17(Property):
             return {"k": "uniq", "cross": obs["cross"], "L": obs["Lkey"], "enum": obs["enum"], "impl": obs["out"]}
         if kind == "best":
             return {"k": "best", "eq": case["eq"], "hits": case["hits"]}
+        if kind == "ruleopts":
+            if "rules" not in obs["out"]:
+                return None
+            rules = self.full_rules(case["strictness"])
+            name_rank = {n: i for i, n in enumerate(sorted({n for n, _ in rules}))}
+            cat_rank = {c: i for i, c in enumerate(sorted({c for _, c in rules}))}
+            return {"k": "ruleopts", "rules": [[name_rank[n], cat_rank[c]] for n, c in rules],
+                    "names": [name_rank[n] for n in case["names"]], "cats": [cat_rank[c] for c in case["cats"]]}
         if kind == "outside":
             return {"k": "outside", "subs": obs["subs"], "annotated": obs["annotated"], "with_domains": obs["with_domains"]}
         if kind == "bycds":
@@ -846,6 +915,15 @@ class C17(Property):
         same = obs["same"]
         if kind == "areas":
             return self.judge_areas(case, obs, drv)
+        if kind == "ruleopts":
+            if drv is None or "model" not in drv:
+                return Judgement(True, same, True, None, False, ("ruleopts", "rejected"), "" if same else str(obs))
+            names = sorted({n for n, _ in self.full_rules(case["strictness"])})
+            model = [names[i] for i in drv["model"]]
+            enabled = [names[i] for i in drv["enabled"]]
+            corr = obs["out"]["rules"] == model and obs["out"]["enabled"] == enabled and drv["model"] == drv["model_rev"]
+            detail = "" if same and corr else f"impl {obs['out']} other {obs.get('other')} model {model} / {enabled}"
+            return Judgement(corr, same, True, None, bool(drv["nontrivial"]), ("ruleopts",), detail)
         if kind == "outside" and drv is not None and "model" in drv:
             corr = obs["out"]["outside"] == drv["model"] and drv["model"] == drv["model_rev"]
             tags = ["outside"] + (["outside:set-walk-would-differ"] if drv["set_walk_differs"] else [])
@@ -983,6 +1061,11 @@ class C17(Property):
             if len(case["subs"]) > 1:
                 yield dict(case, subs=case["subs"][:1])
                 yield dict(case, subs=case["subs"][1:])
+        elif kind == "ruleopts":
+            for i in range(len(case["names"])):
+                yield dict(case, names=case["names"][:i] + case["names"][i + 1:])
+            if case["cats"] and case["names"]:
+                yield dict(case, cats=[])
         elif kind == "bycds":
             for i in range(len(case["tags"])):
                 if len(case["tags"]) > 1:
